@@ -11,7 +11,7 @@ git apply --check $M/patch.diff || { echo "patch does not apply on current HEAD"
 timeout 600 /venv/bin/python $M/demo.py > /tmp/confirm_$SID.clean.log 2>&1; RC_CLEAN=$?
 git apply $M/patch.diff
 timeout 600 /venv/bin/python $M/demo.py > /tmp/confirm_$SID.mut.log 2>&1; RC_MUT=$?
-timeout 5400 /venv/bin/python -m pytest -q -p no:cacheprovider --timeout=900 -n ${NPROC:-8} tests/ > /tmp/confirm_$SID.suite.log 2>&1
+timeout 9000 /venv/bin/python -m pytest -q -p no:cacheprovider --timeout=3600 -n ${NPROC:-8} tests/ > /tmp/confirm_$SID.suite.log 2>&1
 SUITE=$(tail -1 /tmp/confirm_$SID.suite.log)
 mkdir -p /verif/seeded/$SID
 cp $M/patch.diff /verif/seeded/$SID/patch.diff
